@@ -1,5 +1,6 @@
 import Gsp.Model.Mz
 import Gsp.Lemmas.Smt
+import Gsp.Lemmas.HashCRWitness
 import Gsp.Lemmas.SmtPerm
 /-! C03 — the root is a canonical function of the document's meaning.
     Proved here: insertion-order independence of the tree itself (`insertion_order_irrelevant`, via the canonical
@@ -85,5 +86,8 @@ theorem presence_change_changes_root (P : List Nat → Nat) (hcr : HashCR P) (t 
   subst this
   rw [h1] at h2
   simp at h2
+
+/-- non-vacuity: the idealised-hash hypothesis used above is satisfiable (an explicit injective, never-zero function) -/
+theorem idealised_hash_exists : ∃ P : List Nat → Nat, Gsp.Smt.HashCR P := ⟨_, Gsp.Smt.hashCR_satisfiable⟩
 
 end Gsp.Props.C03
